@@ -15,14 +15,30 @@ FIXED = [
  "a := [1,2]\nreturn a[5]\n",
 ]
 
+def big_programs():
+    """functions whose version 1 stream is below 64 KiB and whose version 2 stream, wider by 2 bytes per jump and 4 per
+    try, is above it: relocated positions beyond 65535"""
+    out = []
+    for n in (3000, 3450):
+        body = "".join("if x == %d { a += %d }\n" % (k, k) for k in range(1, n + 1))
+        out.append("param x\na := 0\n" + body + "return a\n")
+        out.append("f := func(x) {\na := 0\n" + body + "return a\n}\nreturn [f(0), f(1), f(%d), f(%d)]\n" % (n // 2, n))
+    for n in (700, 1000, 1300):
+        body = "".join("try { if x == %d { throw %d }; a += 1 } catch e { a += e } finally { a += 2 }\n" % (k, k) for k in range(1, n + 1))
+        out.append("f := func(x) {\na := 0\n" + body + "return a\n}\nreturn [f(0), f(1), f(%d)]\n" % n)
+    for n in (2500,):
+        body = "".join("a = (a && %d) || (x ? a : %d)\n" % (k, k) for k in range(1, n + 1))
+        out.append("param x\na := 1\n" + body + "return a\n")
+    return out
+
 def run(rep, br, proofs, rng, tier):
     n = 400 if tier == "quick" else 6000
     g = proggen.Gen(rng, max_depth=3)
-    srcs = list(FIXED) + [g.program() for _ in range(n)]
+    srcs = list(FIXED) + big_programs() + [g.program() for _ in range(n)]
     cases = [mk_case("s%d" % i, "v1prog", hexs(s.encode())) for i, s in enumerate(srcs)]
     for c, s in zip(cases, srcs): c["src"] = s
     impl, _ = vlib.run_impl([c["line"] for c in cases], timeout=2400)
-    fails, notrep, ok, nfn = [], 0, 0, 0
+    fails, notrep, ok, nfn, big_skipped = [], 0, 0, 0, 0
     mcases = []
     for c in cases:
         out = impl.get(c["id"])
@@ -42,6 +58,9 @@ def run(rep, br, proofs, rng, tier):
             ok += 1
         for j, fn in enumerate(fns):
             nfn += 1
+            # the extracted converter is quadratic in the length of a function: in the quick tier the functions of the
+            # big programs (above 64 KiB) go through the implementation-side oracle only
+            if tier == "quick" and len(fn[1]) > 40000: big_skipped += 1; continue
             mc = mk_case("%s.f%d" % (c["id"], j), "v1conv", fn[1], fn[2]); mc["expect"] = "(ok %s %s)" % (fn[3], vlib.sexp_str(fn[4])); mc["parent"] = c
             mcases.append(mc)
             rc = mk_case("%s.r%d" % (c["id"], j), "v1reloc", fn[1], fn[2], fn[3], fn[4]); rc["expect"] = "(b 1)"; rc["parent"] = c
@@ -60,7 +79,8 @@ def run(rep, br, proofs, rng, tier):
             rep.violation({"property": "C11", "kind": "correspondence", "why": kind, "script": m["parent"]["src"], "case": m["line"][:3000], "model": got, "impl": m["expect"][:3000]}, found=False)
     rep.coverage.update({
         "evaluations": len(cases), "distinct_nontrivial": ok,
-        "rule": "generated scripts (seeded grammar: if/else, for, for-in, &&, ||, ?:, try/catch/finally, nested functions) compiled, narrowed to the version 1 layout, encoded with a version 1 header, decoded by DecodeBytecodeFrom and run; non-trivial = compiled, representable in v1 and executed with equal outcome and byte-identical reconversion",
+        "big_functions_not_sent_to_the_model": big_skipped,
+        "rule": "functions of 2500-3450 statements whose version 1 stream is below 64 KiB and whose version 2 stream is above it (jumps, try statements, and / or jumps beyond position 65535); generated scripts (seeded grammar: if/else, for, for-in, &&, ||, ?:, try/catch/finally, nested functions) compiled, narrowed to the version 1 layout, encoded with a version 1 header, decoded by DecodeBytecodeFrom and run; non-trivial = compiled, representable in v1 and executed with equal outcome and byte-identical reconversion",
         "samples": [srcs[0], srcs[len(FIXED)], srcs[-1]],
         "functions_converted": nfn, "not_compilable_or_not_representable": notrep,
         "model_disagreements": len(dis), "oracle_failures": len(fails), "generator_stats": g.stats})
